@@ -232,4 +232,88 @@ theorem chunks_wrapText (bs : List Nat) (t : Str) (ht : isText t = true) (hne : 
     rw [this] at hlast
     exact hlast hcl
 
+/-! ### `cutText` (values cut between two non-blank characters) -/
+
+theorem cutAux_ne_nil (bs : List Nat) (i : Nat) (p : Char) (s : Str) : cutAux bs i p s ≠ [] := by
+  cases s with
+  | nil => simp [cutAux]
+  | cons c rest => simp only [cutAux]; split <;> simp [consHead_ne_nil]
+
+theorem flatten_cutAux (bs : List Nat) (i : Nat) (p : Char) (s : Str) : (cutAux bs i p s).flatten = s := by
+  induction s generalizing i p with
+  | nil => rfl
+  | cons c rest ih =>
+    simp only [cutAux]
+    split
+    · simp [consHead_flatten, ih]
+    · simp [consHead_flatten, ih]
+
+theorem Bnd_cutAux (bs : List Nat) (i : Nat) (p : Char) (s : Str) : Bnd p (cutAux bs i p s) := by
+  induction s generalizing i p with
+  | nil => trivial
+  | cons c rest ih =>
+    simp only [cutAux]
+    split
+    · rename_i h
+      obtain ⟨hp, hc, _⟩ := h
+      have hne := cutAux_ne_nil bs (i + 1) c rest
+      cases hw : cutAux bs (i + 1) c rest with
+      | nil => exact absurd hw hne
+      | cons x xs =>
+        have := Bnd_consHead p c _ (ih (i + 1) c)
+        rw [hw] at this
+        exact ⟨by simpa using hp, ⟨c, x, rfl, hc⟩, this⟩
+    · exact Bnd_consHead p c _ (ih (i + 1) c)
+
+theorem join_nil_eq_flatten (l : List Str) : join [] l = l.flatten := by
+  induction l with
+  | nil => rfl
+  | cons a r ih =>
+    cases r with
+    | nil => simp [join]
+    | cons b r' => simp only [join, List.append_nil, List.flatten_cons] at ih ⊢; rw [ih]
+
+/-! ### `cutLoc` (locations cut after a comma) -/
+
+theorem cutLocAux_ne_nil (bs : List Nat) (i : Nat) (s : Str) : cutLocAux bs i s ≠ [] := by
+  cases s with
+  | nil => simp [cutLocAux]
+  | cons c rest => simp only [cutLocAux]; split <;> simp [consHead_ne_nil]
+
+theorem flatten_cutLocAux (bs : List Nat) (i : Nat) (s : Str) : (cutLocAux bs i s).flatten = s := by
+  induction s generalizing i with
+  | nil => rfl
+  | cons c rest ih =>
+    simp only [cutLocAux]
+    split
+    · simp [ih]
+    · simp [consHead_flatten, ih]
+
+/-- every chunk of a non-empty location is non-empty -/
+theorem cutLocAux_chunks_ne (bs : List Nat) (i : Nat) (s : Str) (hs : s ≠ []) : ∀ c ∈ cutLocAux bs i s, c ≠ [] := by
+  induction s generalizing i with
+  | nil => exact absurd rfl hs
+  | cons c rest ih =>
+    simp only [cutLocAux]
+    split
+    · rename_i h
+      intro x hx
+      rcases List.mem_cons.mp hx with rfl | hx
+      · simp
+      · exact ih (i + 1) h.2.1 x hx
+    · intro x hx
+      cases hw : cutLocAux bs (i + 1) rest with
+      | nil => exact absurd hw (cutLocAux_ne_nil _ _ _)
+      | cons y ys =>
+        rw [hw] at hx
+        simp only [consHead, List.mem_cons] at hx
+        rcases hx with rfl | hx
+        · simp
+        · cases rest with
+          | nil => simp [cutLocAux] at hw; obtain ⟨_, rfl⟩ := hw; simp at hx
+          | cons r rs => exact ih (i + 1) (by simp) x (by rw [hw]; simp [hx])
+
+theorem mem_of_mem_flatten_chunk (l : List Str) (c : Str) (hc : c ∈ l) : ∀ x ∈ c, x ∈ l.flatten := by
+  intro x hx; exact List.mem_flatten.mpr ⟨c, hc, hx⟩
+
 end PolyVerif.Lemmas.Genbank
